@@ -235,6 +235,11 @@ func c03Find(c *Ctx, cs *C03Case, out *CaseOut, wantSig string) []c03Fail {
 		return wantSig != ""
 	}
 	hist := ""
+	type kept struct {
+		res  Res
+		step int
+	}
+	var retained []kept
 	for si, st := range cs.Steps {
 		ep := st.EP
 		if ep < EPParseAndRender && tpls[st.T] == nil {
@@ -276,6 +281,17 @@ func c03Find(c *Ctx, cs *C03Case, out *CaseOut, wantSig string) []c03Fail {
 					return fails
 				}
 			}
+		}
+		for _, k := range retained {
+			if !k.res.Intact() {
+				if add("returned-bytes-stable", fmt.Sprintf("the []byte returned by step %d (%q) was overwritten by step %d: it now reads %q", k.step, clip(k.res.Out), si, clip(string(k.res.bytes))), si) {
+					return fails
+				}
+			}
+		}
+		retained = nil
+		if res.bytes != nil {
+			retained = append(retained, kept{res, si})
 		}
 		out.Evals++
 		hist += fmt.Sprintf("%s/%d/%d/%d;", st.Kind, st.T, st.B, ep)
